@@ -13,6 +13,6 @@ theorem step_err_unchanged (w : W) (op : Op) (c : Cause) (h : (step w op).2 = .e
     (step w op).1 = w := by
   revert h
   cases op <;> simp only [step] <;>
-    repeat (first | split | (intro h; first | rfl | (dsimp only at h; cases h; done)))
+    repeat' (first | split | (intro h; first | rfl | (dsimp only at h; cases h; done)))
 
 end Acme.Payload
